@@ -35,7 +35,21 @@ int main() {
     while (vf::read_case(std::cin, c)) {
         const long steps = c.mi("steps", 1);
         ServedLTI* served = new ServedLTI(c.mat("H_s0"), c.mat("R_s0"), c.mat("y_s0"));
-        KFCorrection kf((std::unique_ptr<LinearMeasurementModel>(served)));
+        // lifetime=moved: the subject is obtained through KFCorrection's hand-written move constructor, from a fresh
+        // object or (moved_after_use) from one that has already run a correction; the property is about every KFCorrection
+        // object however it was obtained
+        const std::string lifetime = c.m("lifetime", "fresh");
+        std::unique_ptr<KFCorrection> kf_first(new KFCorrection(std::unique_ptr<LinearMeasurementModel>(served)));
+        if (lifetime == "moved_after_use") {
+            const MatrixXd& m0 = c.mat("means_s0");
+            GaussianMixture p0(m0.cols(), m0.rows()), c0(m0.cols(), m0.rows());
+            p0.mean() = m0; p0.covariance() = c.mat("covs_s0");
+            vf::Entry e("KFCorrection::correct (before the move)");
+            kf_first->freeze_measurements(); kf_first->correct(p0, c0); kf_first->getLikelihood();
+        }
+        std::unique_ptr<KFCorrection> kf_moved;
+        if (lifetime != "fresh") { vf::Entry e("KFCorrection::KFCorrection(KFCorrection&&)"); kf_moved.reset(new KFCorrection(std::move(*kf_first))); kf_first.reset(); }
+        KFCorrection& kf = kf_moved ? *kf_moved : *kf_first;
         vf::out_begin(c.id);
         const long extra = c.mi("extra", 0);     // additional components of the output object (frame)
         const long alias = c.mi("alias", 0);     // correct(g, g): the output object is the input object
